@@ -154,7 +154,11 @@ def refactor_variants():
             continue
         with open(pp) as f:
             diff = f.read()
-        out.append(M("refactor:" + name, ALL_PROPS, "*", (lambda src, _d=diff: apply_unified_diff(src, _d)), None, kind="E",
+        # refactors/<id>/KIND = "U": a behaviour-preserving variant so far from the pinned shapes (kernels built by a factory, methods
+        # delegating to module-level functions) that the checks are only required not to report a VIOLATION; exit 2 is accepted
+        kp = os.path.join(d, name, "KIND")
+        kind = open(kp).read().strip() if os.path.exists(kp) else "E"
+        out.append(M("refactor:" + name, ALL_PROPS, "*", (lambda src, _d=diff: apply_unified_diff(src, _d)), None, kind=kind,
                      note="independent behaviour-preserving refactoring archived under /verif/refactors/%s" % name))
     return out
 
